@@ -26,6 +26,7 @@ CInitH(h) ==
                phs |-> <<>>,         \* connect phases in progress [k: start | finish, on: connection, op: user call start |
                                      \* finish | connect]; more than one only while an abandoned attempt is still unwinding
                dc |-> <<>>,          \* connections a disconnect() call is still running on (one entry per call)
+               wf |-> {},            \* connections whose transport raises on write from now on (broken pipe, reset)
                dn |-> <<>>,          \* operations that ended in this callback: <<op, class>>
                gate |-> "none" ]     \* verdict of the API gate in this callback: none | open | shut | shut_in_stop
 CInit == CInitH("none")
@@ -92,10 +93,23 @@ UserDisconnect(x0, force) ==
 
 \* any command / subscription / request: refused unless an authenticated session is alive
 GateOpen(x) == x.ptr # 0 /\ x.st[x.ptr] = "connected"
+\* Every API call writes its request in its first step.  On a transport whose write raises, the call fails with a
+\* connection error and the session is torn down in the same callback (stop callback included): the client
+\* is free again at once - it does not keep a dead session until the transport reports the loss.
 UserApi(x0) ==
   LET x == Begin(x0) IN
-  IF GateOpen(x) THEN {[x EXCEPT !.gate = "open"]}
+  IF GateOpen(x) THEN
+     IF x.ptr \in x.wf
+     THEN LET y == Close(x, x.ptr) IN {Done([y EXCEPT !.gate = IF @ = "shut_in_stop" THEN @ ELSE "failed"], "api", "ANY")}
+     ELSE {[x EXCEPT !.gate = "open"]}
   ELSE {Done([x EXCEPT !.gate = "shut"], "api", "ANY")}
+
+\* the transport of connection i starts failing its writes (no read event yet, connection_lost not delivered)
+EnvWriteFail(x0, i) == IF i \in 1..N(x0) THEN {[Begin(x0) EXCEPT !.wf = @ \cup {i}]} ELSE {Begin(x0)}
+
+\* recv() on connection i's socket fails: the transport is closing from now on (its writes are dropped silently,
+\* they no longer raise); the connection itself learns of the loss in a later callback (EnvClose)
+EnvReset(x0, i) == {[Begin(x0) EXCEPT !.wf = @ \ {i}]}
 
 \* ---------------------------------------------------- connection-level
 \* the phase in progress ends
